@@ -68,12 +68,14 @@ pub fn parse_range(s: &str) -> Option<(u64, u64)> {
 fn fragment(body: &[u8], frag: BodyFrag, max_delay_ns: u64, tape: &mut Tape) -> Vec<(u64, Vec<u8>)> {
     let mut out = Vec::new();
     let mut i = 0;
+    // at most ~1500 fragments per body: tiny fragments are for small bodies
+    let floor = body.len() / 1500 + 1;
     while i < body.len() {
         let rem = body.len() - i;
         let n = match frag {
             BodyFrag::One => rem,
-            BodyFrag::Max(k) => rem.min(k.max(1)),
-            BodyFrag::Random(k) => 1 + tape.draw(rem.min(k.max(1)) as u32) as usize,
+            BodyFrag::Max(k) => rem.min(k.max(floor)),
+            BodyFrag::Random(k) => (floor - 1 + 1 + tape.draw(rem.min(k.max(1)) as u32) as usize).min(rem),
         };
         let delay = if max_delay_ns == 0 { 0 } else { tape.draw(4) as u64 * (max_delay_ns / 4) };
         out.push((delay, body[i..i + n].to_vec()));
